@@ -361,3 +361,125 @@ def c13_r5(ctx):
     seen.sort()
     tiles = all(seen[i][1] == seen[i + 1][0] for i in range(len(seen) - 1)) and bool(seen) and seen[0][0] == 0
     ctx.ob(f, len(seen) >= 5 and tiles, "the fixed-width fields tile the string from position 0", detail=str(seen))
+
+
+@rule("C13", "R6", "K2", "the trie split of a numeric range stops when the next tier's bounds have crossed or wrapped",
+      min_instances=1,
+      clause="split_ranges() narrows [start, end] tier by tier: next start = (start + diff) & ~mask, next end = (end - diff) & ~mask. "
+             "end - diff is negative when end lies in the lowest block of the tier, and the mask turns it into a large positive "
+             "number. The test that ends the descent must therefore compare (a) the two next bounds with each other and (b) the next "
+             "end with the current end (or with zero, before masking): without (b) NumericRange('n', 0, 1) on an unsigned field "
+             "emits the whole top tier and matches every document. Decides the presence of the two comparisons on the exit test, "
+             "not the arithmetic.")
+def c13_r6(ctx):
+    prog = ctx.prog
+    f = prog.func("util.numeric.split_ranges")
+    ctx.saw(f)
+    params = f.params
+    if len(params) < 4:
+        raise AnalysisError("split_ranges signature changed")
+    p_start, p_end = params[2], params[3]
+    # the two next-bound variables, by role
+    nxt = {}
+    for st in ast.walk(f.node):
+        if isinstance(st, ast.Assign) and len(st.targets) == 1 and isinstance(st.targets[0], ast.Name):
+            v = st.value
+            names = norm.names_in(v)
+            has_add = any(isinstance(x, ast.BinOp) and isinstance(x.op, ast.Add) and p_start in norm.names_in(x) for x in ast.walk(v))
+            has_sub = any(isinstance(x, ast.BinOp) and isinstance(x.op, ast.Sub) and p_end in norm.names_in(x) for x in ast.walk(v))
+            if has_add and p_start in names and st.targets[0].id not in (p_start, p_end):
+                nxt["start"] = st.targets[0].id
+            if has_sub and p_end in names and st.targets[0].id not in (p_start, p_end):
+                nxt["end"] = st.targets[0].id
+    # by role, second spelling: the names the two parameters are re-bound to for the next round (start = nextstart;
+    # start, end = nextstart, nextend), whatever statements computed them
+    for st in ast.walk(f.node):
+        if isinstance(st, ast.Assign) and len(st.targets) == 1:
+            t, v = st.targets[0], st.value
+            pairs = []
+            if isinstance(t, ast.Name):
+                pairs = [(t, v)]
+            elif isinstance(t, ast.Tuple) and isinstance(v, ast.Tuple) and len(t.elts) == len(v.elts):
+                pairs = list(zip(t.elts, v.elts))
+            for tt, vv in pairs:
+                if isinstance(tt, ast.Name) and isinstance(vv, ast.Name) and vv.id not in (p_start, p_end):
+                    if tt.id == p_start:
+                        nxt.setdefault("start", vv.id)
+                    elif tt.id == p_end:
+                        nxt.setdefault("end", vv.id)
+    if set(nxt) != {"start", "end"}:
+        raise AnalysisError("split_ranges: cannot find the next-tier bounds (%s)" % nxt)
+    # the exit test: the `if` whose body leaves the loop (break/return)
+    exits = [x for x in ast.walk(f.node) if isinstance(x, ast.If) and
+             any(isinstance(y, (ast.Break, ast.Return)) for b in x.body for y in ast.walk(b))]
+    if not exits:
+        raise AnalysisError("split_ranges: no exit test found")
+    crossed = wrapped = False
+    for x in exits:
+        t = norm.inline_defs(x.test, f.node) if not isinstance(x.test, (ast.BoolOp, ast.Compare)) else x.test
+        for c in ast.walk(t):
+            if not isinstance(c, ast.Compare) or len(c.ops) != 1:
+                continue
+            ns = norm.names_in(c)
+            if nxt["start"] in ns and nxt["end"] in ns:
+                crossed = True
+            side = [norm.canon(c.left), norm.canon(c.comparators[0])]
+            if nxt["end"] in side and (p_end in side or "0" in side):
+                wrapped = True
+    # or: the sign is tested before the mask is applied
+    for c in ast.walk(f.node):
+        if isinstance(c, ast.Compare) and len(c.ops) == 1 and isinstance(c.left, ast.BinOp) and isinstance(c.left.op, ast.Sub) \
+                and p_end in norm.names_in(c.left) and norm.canon(c.comparators[0]) == "0":
+            wrapped = True
+    ctx.ob(f, crossed, "the descent ends when the next bounds have crossed", loc=ctx.nodeloc(f, exits[0]))
+    ctx.ob(f, wrapped, "the descent ends when the next end has wrapped past the current end",
+           detail="" if wrapped else "`%s` is (%s - diff) & ~mask: negative for an end in the lowest block, huge after masking; nothing "
+                                     "compares it with `%s` (or tests the sign), so the whole top tier is emitted" %
+                                     (nxt["end"], p_end, p_end), loc=ctx.nodeloc(f, exits[0]))
+
+
+@rule("C13", "R7", "K2", "a range emptied by its exclusive bounds yields no tier at all",
+      min_instances=1,
+      clause="tiered_ranges() moves an exclusive start up by one and an exclusive end down by one in sortable space. At the edge of the "
+             "domain that leaves start > end (start = 2**bits, or end = -1), values no encoder can pack. Every path on which a bound "
+             "was stepped and that then returns the pair or hands it to split_ranges() has first tested start against end.")
+def c13_r7(ctx):
+    prog = ctx.prog
+    f = prog.func("util.numeric.tiered_ranges")
+    ctx.saw(f)
+    g = cfgmod.cfg_of(f, exc_edges=False)
+
+    def is_step(n):
+        a = n.ast
+        return n.kind == "stmt" and isinstance(a, ast.AugAssign) and isinstance(a.target, ast.Name) and a.target.id in ("start", "end") \
+            and isinstance(a.op, (ast.Add, ast.Sub))
+
+    def is_use(n):
+        a = n.ast
+        if not isinstance(a, ast.Return) or a.value is None:
+            return False
+        names = norm.names_in(a.value)
+        return "start" in names and "end" in names
+
+    def is_test(n):
+        for e in cfgmod.node_exprs(n):
+            for c in ast.walk(e):
+                if isinstance(c, ast.Compare) and len(c.ops) == 1 and isinstance(c.ops[0], (ast.Gt, ast.GtE, ast.Lt, ast.LtE)):
+                    side = set([norm.canon(c.left), norm.canon(c.comparators[0])])
+                    if side == {"start", "end"}:
+                        return True
+        return False
+    steps = [n for n in g.nodes if is_step(n)]
+    uses = [n for n in g.nodes if is_use(n)]
+    if not steps or not uses:
+        ctx.note("tiered_ranges no longer steps exclusive bounds in place; shape not recognised")
+        ctx.ob(f, True, "no in-place stepping of exclusive bounds")
+        return
+    bad = None
+    for s in steps:
+        p = cfgmod.find_path(g, s, lambda y: y in uses, avoid_pred=is_test)
+        if p:
+            bad = [s] + p
+    ctx.ob(f, bad is None, "no path steps a bound and uses the pair without comparing start with end",
+           detail="" if bad is None else "an exclusive bound at the edge of the domain leaves start > end; the pair reaches the encoder",
+           path=cfgmod.path_text(bad) if bad else None)
